@@ -8,7 +8,7 @@ use super::*;
 #[test]
 fn native_all_parsers_short_inputs_nopanic() {
     let magics: [&[u8]; 15] = [b"", b"ShPk", b"EXHF", b"EXDF", b"XFVA", b"blks", b"pap ", b"LGB1", b"SqPack\0\0", b"SCDB", b"uldh", b"SGB1", b"SEDB", b"PHYB", b"\0\0\x0b\x00"];
-    let parsers: Vec<(&str, Box<dyn Fn(&[u8]) + std::panic::RefUnwindSafe>)> = vec![
+    let parsers: Vec<(&str, Box<dyn Fn(&[u8]) + std::panic::RefUnwindSafe + Sync>)> = vec![
         ("avfx", Box::new(|b: &[u8]| { let _ = crate::avfx::Avfx::from_existing(b); })),
         ("cmp", Box::new(|b: &[u8]| { let _ = crate::cmp::CMP::from_existing(b); })),
         ("dic", Box::new(|b: &[u8]| { let _ = crate::dic::Dictionary::from_existing(b); })),
